@@ -93,7 +93,8 @@ def height(draw, allow_tall=False):
     return draw(st.integers(2, 12))
 
 
-SIZED = {"int": ["int64", "int64", "int32", "int16", "int8", "uint8", "uint16", "uint32", "uint64"],
+# uint64 is left out: K06 (open finding, Polars computes Int64 x UInt64 arithmetic in Float64)
+SIZED = {"int": ["int64", "int64", "int32", "int16", "int8", "uint8", "uint16", "uint32"],
          "float": ["float64", "float64", "float32"]}
 
 
